@@ -261,3 +261,20 @@ def guard(ctx: Ctx, key: str, sub: str, case, allow=()):
 
 class Skip(Exception):
     """Raised after a *known* failure was counted: abandon the rest of this case."""
+
+
+@contextlib.contextmanager
+def watchdog(seconds: float, what: str = "watchdog"):
+    """Per-case time limit: expiry means *inconclusive*, never a violation."""
+    import signal
+
+    def handler(signum, frame):
+        raise Inconclusive(f"{what}: no result within {seconds}s")
+
+    old = signal.signal(signal.SIGALRM, handler)
+    signal.setitimer(signal.ITIMER_REAL, seconds)
+    try:
+        yield
+    finally:
+        signal.setitimer(signal.ITIMER_REAL, 0)
+        signal.signal(signal.SIGALRM, old)
